@@ -129,6 +129,22 @@ def history_oracle(cfg, rng, seed_base):
         j = rng.randrange(len(base))
         base[j] = rng.uniform(lo[j], up[j])
         pts.append(sharpen(names, base) if sharp else base)
+    # every sampled cosmological parameter in turn: a twin of an inside point that differs in that parameter alone, visited
+    # right after its twin, then after an unrelated point, then the twin again (a cache of the cosmology / of the distances
+    # keyed on too few parameters makes the first visit stale)
+    forced = []
+    inside0 = [i for i, x in enumerate(pts) if all(a <= v <= b for v, a, b in zip(x, lo, up))]
+    if not inside0:
+        x = c02.gen_vector(rng, lo, up, "inside")
+        pts.append(sharpen(names, x) if sharp else x)
+        inside0 = [len(pts) - 1]
+    for j, nm in enumerate(names):
+        if nm in ("h0", "om", "ok", "w", "w0", "wa") and up[j] > lo[j]:
+            bi = inside0[0]
+            tw = list(pts[bi])
+            tw[j] = lo[j] + (up[j] - lo[j]) * (0.25 if tw[j] > 0.5 * (lo[j] + up[j]) else 0.75)
+            pts.append(tw)
+            forced.append((bi, len(pts) - 1))
     if cfg["cosmology"] == "oLCDM" and "om" in names and "ok" in names:
         # the curved model: points INSIDE the box that the physical-model guard rejects (E(z)^2 <= 0 somewhere, or no dark
         # energy left) belong to every history and to the comparison with the copies
@@ -140,6 +156,9 @@ def history_oracle(cfg, rng, seed_base):
                 pts.append(sharpen(names, x) if sharp else x)
     hist = [rng.randrange(len(pts)) for _ in range(rng.randint(16, 48))]
     hist += [i for i in range(len(pts)) if i not in hist]
+    for bi, ti in forced:
+        others = [i for i in range(len(pts)) if i not in (bi, ti) and all(abs(a - b) > 0 for a, b in zip(pts[i][:2], pts[bi][:2]))] or [bi]
+        hist += [bi, ti, rng.choice(others), ti, bi]
     # the optional distance table of likelihood() is an input like the vector: the same vector with a table, with another
     # table and without one are three different points; each is visited right after its table-less twin and after others
     tabs = {}
@@ -384,7 +403,9 @@ def run(ctx, res):
     n = ctx.n(14, 200)
     lines, meta = [], []
     for t in range(n):
-        cfg = gen_history_cfg(rng, want="oLCDM" if t < 2 else None)      # the curved model (its own guard) in the first two
+        cfg = gen_history_cfg(rng, want="oLCDM" if t < 2 else {2: "FwCDM", 3: "w0waCDM"}.get(t))      # the curved model (its own guard) in the first two
+        if t in (2, 3):
+            cfg["mode"] = "sampled"      # the dark-energy models with the cosmology hierArc builds from the vector
         import random as _random
         hseed, sbase = rng.randrange(2 ** 30), ctx.np_seed() % (2 ** 30)
         try:
